@@ -368,9 +368,10 @@ NoDumpSig == Journal /\ ~DumpFile /\ lastTick' # Nil /\ node'[lastTick'].alive
 (* signature of known finding KF7: a complete snapshot OLDER than the node's applied position is installed (the leader *)
 (* was sent back by a stale 'reset' reply of this follower): applied index and object state move backwards             *)
 InstallOlderSig(n) ==
-  /\ BothLive(n) /\ node'[n].snap # node[n].snap /\ node'[n].snap \in DOMAIN snaps'
+  /\ BothLive(n) /\ node'[n].snap \in DOMAIN snaps'
   /\ snaps'[node'[n].snap].last.idx < node[n].applied
   /\ node'[n].applied = snaps'[node'[n].snap].last.idx
+  /\ node'[n].log = <<snaps'[node'[n].snap].prev, snaps'[node'[n].snap].last>>
 MonoBad == {n \in Nodes : BothLive(n) /\ ~(node'[n].commit >= node[n].commit /\ node'[n].applied >= node[n].applied)}
 HistBad == {n \in Nodes : BothLive(n) /\ ~(Len(node[n].hist) <= Len(node'[n].hist) /\ SubSeq(node'[n].hist, 1, Len(node[n].hist)) = node[n].hist)}
 
